@@ -37,10 +37,12 @@ theorem ND_close {r : Reg} (h : ND r) (sid : Bytes) : ND (r.close sid).1 :=
 
 theorem expiryStrict_true : Sticky.expiryStrict = true := by decide
 
-theorem expired_new (sid pk : Bytes) (now ttl st ow : Nat) : expired ⟨sid, now + ttl, pk, st, ow⟩ now = false := by
-  unfold expired
+theorem expired_new (sid pk : Bytes) (now : Nat) (ttl : Option Int) (d st ow : Nat) (h : 0 ≤ effTtl ttl d) :
+    expired ⟨sid, expiresOf now ttl d, pk, st, ow⟩ now = false := by
+  unfold expired expiresOf
   rw [expiryStrict_true]
-  simp
+  simp only [if_true, decide_eq_false_iff_not, Nat.not_lt]
+  omega
 
 /-- the three registry-wide invariants, bundled -/
 def RegInv (W : World) : Prop := ND W.reg ∧ FreshE W ∧ NoExp W
@@ -78,7 +80,7 @@ def FR (c : Nat) (R0 : Reg) (W : World) (rs : RS) : Prop :=
   (∀ sid l, rs.sc = some (sid, l) → ∀ x ∈ W.reg.entries, x.sid = sid → x.owner = c)
 
 theorem step_inv (cfg : Cfg) (wk : Nat) (ident : Identity) (c : Nat) (R0 : Reg) (W : World) (rs : RS) (a : Action)
-    (hb : W.env.sidCtr < 256 ^ 12) (hapi : a.isApi = true) (hr : RegInv W) (hf : FR c R0 W rs) :
+    (hb : W.env.sidCtr < 256 ^ 12) (hapi : a.isApi = true) (httl : C27.Spec.TtlNonneg cfg a) (hr : RegInv W) (hf : FR c R0 W rs) :
     RegInv (stepAction cfg wk ident c W rs a).1 ∧ FR c R0 (stepAction cfg wk ident c W rs a).1 (stepAction cfg wk ident c W rs a).2.1 := by
   obtain ⟨hnd, hfr, hne⟩ := hr
   obtain ⟨f1, f2, f3⟩ := hf
@@ -122,10 +124,10 @@ theorem step_inv (cfg : Cfg) (wk : Nat) (ident : Identity) (c : Nat) (R0 : Reg) 
             · exact hne x hx1
             · exact hen
           split
-          · refine ⟨⟨ND_insert hnd _, g4 _ rfl, g5 _ (expired_new _ _ _ _ _ _)⟩, g1 _ rfl, g2 _ rfl, ?_⟩
+          · refine ⟨⟨ND_insert hnd _, g4 _ rfl, g5 _ (expired_new _ _ _ _ _ _ _ httl)⟩, g1 _ rfl, g2 _ rfl, ?_⟩
             intro sid l' hs
             rw [hnone] at hs; cases hs
-          · refine ⟨⟨ND_insert hnd _, g4 _ rfl, g5 _ (expired_new _ _ _ _ _ _)⟩, g1 _ rfl, g2 _ rfl, ?_⟩
+          · refine ⟨⟨ND_insert hnd _, g4 _ rfl, g5 _ (expired_new _ _ _ _ _ _ _ httl)⟩, g1 _ rfl, g2 _ rfl, ?_⟩
             intro sid l' hs x hx hxs
             simp only [Option.some.injEq, Prod.mk.injEq] at hs
             rcases Reg.mem_insert.mp hx with ⟨hx1, hx2⟩ | rfl
@@ -152,17 +154,17 @@ theorem step_inv (cfg : Cfg) (wk : Nat) (ident : Identity) (c : Nat) (R0 : Reg) 
   | shutdown => cases hapi
 
 theorem run_inv (cfg : Cfg) (wk : Nat) (ident : Identity) (c : Nat) (R0 : Reg) (swallow : Bool) (script : List Action) :
-    (∀ a ∈ script, a.isApi = true) →
+    (∀ a ∈ script, a.isApi = true) → (∀ a ∈ script, C27.Spec.TtlNonneg cfg a) →
     ∀ (W : World) (rs : RS), W.env.sidCtr + script.length ≤ 256 ^ 12 → RegInv W → FR c R0 W rs →
       RegInv (runScript cfg wk ident c swallow W rs script).1 ∧
       FR c R0 (runScript cfg wk ident c swallow W rs script).1 (runScript cfg wk ident c swallow W rs script).2.1 := by
   induction script with
-  | nil => intro _ W rs _ hr hf; exact ⟨hr, hf⟩
+  | nil => intro _ _ W rs _ hr hf; exact ⟨hr, hf⟩
   | cons a as ih =>
-    intro hapi W rs hb hr hf
-    have ih := ih (fun b hb' => hapi b (by simp [hb']))
+    intro hapi httl W rs hb hr hf
+    have ih := ih (fun b hb' => hapi b (by simp [hb'])) (fun b hb' => httl b (by simp [hb']))
     simp only [List.length_cons] at hb
-    have h1 := step_inv cfg wk ident c R0 W rs a (by omega) (hapi a (by simp)) hr hf
+    have h1 := step_inv cfg wk ident c R0 W rs a (by omega) (hapi a (by simp)) (httl a (by simp)) hr hf
     have hc := step_sidCtr cfg wk ident c W rs a
     have h2 := ih (stepAction cfg wk ident c W rs a).1 (stepAction cfg wk ident c W rs a).2.1 (by omega) h1.1 h1.2
     simp only [runScript]
